@@ -69,7 +69,7 @@ func (Prop) Assumptions() []string {
 var derivations = []string{"session", "session", "with_context", "debug", "begin"}
 var readFins = []string{"find", "find", "first", "take", "count", "pluck", "rows", "scan", "find_in_batches", "first_or_init", "count_direct", "count_direct", "pluck_direct", "rows_direct", "scan_direct", "last"}
 var writeFins = []string{"update", "updates", "delete", "create", "update_direct"}
-var methods = []string{"model", "model", "where", "where", "where", "or", "not", "select", "omit", "order", "order", "limit", "offset", "group", "having", "joins", "joins", "distinct", "unscoped", "scopes", "preload", "returning", "returning", "order_clause", "locking", "on_conflict", "table", "model", "attrs", "assign", "where_sub", "from_clause", "group_clause", "limit_clause", "insert_modifier", "inner_joins", "select_expr", "omit_assoc"}
+var methods = []string{"model", "model", "where", "where", "where", "or", "not", "select", "omit", "order", "order", "limit", "offset", "group", "having", "joins", "joins", "distinct", "unscoped", "scopes", "preload", "returning", "returning", "order_clause", "locking", "on_conflict", "table", "model", "attrs", "assign", "where_sub", "where_group", "where_group", "table", "from_clause", "group_clause", "limit_clause", "insert_modifier", "inner_joins", "select_expr", "omit_assoc"}
 
 func genStep(r *core.Rand, nHandles int, palette []string) Step {
 	st := Step{M: r.Pick(palette), V: r.Intn(6), S: fmt.Sprintf("s%d", r.Intn(50)), N: r.Intn(40)}
@@ -78,7 +78,7 @@ func genStep(r *core.Rand, nHandles int, palette []string) Step {
 	for _, i := range r.Perm(len(cols))[:n] {
 		st.L = append(st.L, cols[i])
 	}
-	if st.M == "where_sub" {
+	if st.M == "where_sub" || st.M == "where_group" {
 		st.H = r.Intn(nHandles)
 	}
 	return st
@@ -186,7 +186,7 @@ func (Prop) Shrink(ci interface{}) []interface{} {
 				used = true
 			}
 			for _, st := range c.Chains[j].Steps {
-				if st.M == "where_sub" && st.H == i+1 {
+				if (st.M == "where_sub" || st.M == "where_group") && st.H == i+1 {
 					used = true
 				}
 			}
@@ -287,6 +287,16 @@ func apply(db *gorm.DB, st Step, handles []*gorm.DB) *gorm.DB {
 			h = handles[st.H]
 		}
 		return db.Where("id IN (?)", h.Model(&fam.User{}).Select("id").Where("age >= ?", st.N))
+	case "where_group":
+		// a reusable handle used as a group condition of another chain
+		h := handles[0]
+		if st.H < len(handles) && handles[st.H] != nil {
+			h = handles[st.H]
+		}
+		if st.V%2 == 0 {
+			return db.Where(h)
+		}
+		return db.Or(h)
 	case "select":
 		if st.V%2 == 0 {
 			return db.Select(strs(st.L))
@@ -367,7 +377,16 @@ func apply(db *gorm.DB, st Step, handles []*gorm.DB) *gorm.DB {
 	case "omit_assoc":
 		return db.Omit(clause.Associations)
 	case "table":
-		return db.Table("users")
+		switch st.V % 4 {
+		case 0:
+			return db.Table("users")
+		case 1:
+			return db.Table("users AS users")
+		case 2:
+			return db.Table("(?) AS users", db.Session(&gorm.Session{NewDB: true}).Model(&fam.User{}).Where("age >= ?", st.N))
+		default:
+			return db.Table("pets")
+		}
 	case "model":
 		return db.Model(&fam.User{})
 	case "attrs":
@@ -613,7 +632,7 @@ func (c *Case) history() (map[int]obs, []string, error) {
 			return false
 		}
 		for _, st := range ch.Steps {
-			if st.M == "where_sub" && st.H <= n && st.H > 0 && handles[st.H] == nil && !done[st.H-1] {
+			if (st.M == "where_sub" || st.M == "where_group") && st.H <= n && st.H > 0 && handles[st.H] == nil && !done[st.H-1] {
 				return false // the sub-query handle does not exist yet
 			}
 		}
@@ -667,7 +686,7 @@ func (c *Case) isolated(i int) (obs, error) {
 	run := func(ch Chain) *gorm.DB {
 		db := build(ch.From)
 		for _, st := range ch.Steps {
-			if st.M == "where_sub" {
+			if st.M == "where_sub" || st.M == "where_group" {
 				build(st.H)
 			}
 			db = apply(db, st, handles)
